@@ -5,6 +5,7 @@ import (
 	"go/constant"
 	"go/token"
 	"go/types"
+	"sort"
 	"strings"
 
 	"golang.org/x/tools/go/ssa"
@@ -259,6 +260,35 @@ func runC12(c *eng.Ctx) {
 	})
 
 	c.Rule("SYMMETRY", "aggregation.fieldAggregator.Aggregate{a partial series is merged into the series of its own aggregate type}", func() { partialMergeByAggType(c) })
+
+	// ---- 2b. the leaf's grouping-task count: one fork per stage object, taken when the stage is created --------------------------
+	c.Rule("TYPESTATE", "query/stage{a stage that un-counts a grouping task in Complete counted it when it was created}", func() { groupingTaskPairing(c) })
+
+	// ---- 2c. a grouping stage loads the container of the high key it is created for ----------------------------------------------
+	c.Rule("PROV", "query/stage.shardScanStage.NextStages{high key of the container}", func() {
+		f := c.Fn("query/stage.shardScanStage.NextStages")
+		sts := c.Some(f, eng.StoreField("flow.DataLoadContext.SeriesIDHighKey"), "DataLoadContext{SeriesIDHighKey: …}")
+		for i, st := range sts {
+			v := st.Instr.(*ssa.Store).Val
+			elem := eng.DependsOn(v, func(x ssa.Value) bool {
+				u, ok := x.(*ssa.UnOp)
+				if !ok {
+					return false
+				}
+				ia, ok := u.X.(*ssa.IndexAddr)
+				if !ok {
+					return false
+				}
+				return eng.DependsOn(ia.X, func(y ssa.Value) bool {
+					cl, ok := y.(*ssa.Call)
+					return ok && cl.Common().StaticCallee() != nil && cl.Common().StaticCallee().Name() == "GetHighKeys"
+				})
+			})
+			c.Check(elem, fmt.Sprintf("high-key-is-an-element-of-GetHighKeys[%d]", i), st.Instr, f,
+				"SeriesIDHighKey is an ELEMENT of seriesIDs.GetHighKeys() (the key of the container), not the container's position: the two differ as soon as the first high key is not 0 or keys are not contiguous, and every later lookup (grouping scanners, data load) addresses series by the key",
+				"stores "+p.Desc(v))
+		}
+	})
 
 	// ---- 3. completion --------------------------------------------------------------------------------------------------------------
 	c.Rule("GUARD", btcT+".tryClose", func() {
@@ -539,4 +569,57 @@ func sentinelText(p *eng.Prog, g *ssa.Global) string {
 		}
 	}
 	return ""
+}
+
+// groupingTaskPairing: LeafGroupingContext collects the group-by tag values when its task count returns to zero. A stage's Complete()
+// runs once for every stage object the pipeline was given, whatever its Plan() produced; so the matching ForkGroupingTask must be
+// taken unconditionally when the stage object is created (its constructor), and nowhere else. A fork taken later or under a
+// condition lets the count reach zero (collection starts, result sent) while stages are still to come, or drives it negative.
+func groupingTaskPairing(c *eng.Ctx) {
+	p := c.P
+	fork := eng.AnyCallTo("query/context.LeafGroupingContext.ForkGroupingTask")
+	done := eng.AnyCallTo("query/context.LeafGroupingContext.CompleteGroupingTask")
+	var stageTypes []string
+	for _, fn := range p.FuncsWithPrefix("query/stage.") {
+		if baseName(fn.Name()) != "Complete" || fn.Signature.Recv() == nil {
+			continue
+		}
+		if len(p.SitesDirect(fn, done)) == 0 {
+			continue
+		}
+		k := p.FuncKey(fn)
+		stageTypes = append(stageTypes, strings.TrimSuffix(k, ".Complete"))
+		c.Check(p.MustPass(fn, done, 0), "complete-uncounts:"+k, nil, fn, "Complete() gives the grouping task back on every path", "")
+	}
+	sort.Strings(stageTypes)
+	c.Check(len(stageTypes) >= 2, "stages-found", nil, nil, "shard scan and grouping stages take part in the grouping-task count", fmt.Sprintf("%v", stageTypes))
+	ctors := map[string]*ssa.Function{}
+	for _, fn := range p.FuncsWithPrefix("query/stage.") {
+		if fn.Signature.Recv() != nil || fn.Parent() != nil {
+			continue
+		}
+		for _, b := range fn.Blocks {
+			for _, in := range b.Instrs {
+				if a, ok := in.(*ssa.Alloc); ok {
+					if n, ok := a.Type().(*types.Pointer).Elem().(*types.Named); ok {
+						ctors["query/stage."+n.Obj().Name()] = fn
+					}
+				}
+			}
+		}
+	}
+	allowed := []string{}
+	for _, t := range stageTypes {
+		ct := ctors[t]
+		if ct == nil {
+			c.Check(false, "constructor:"+t, nil, nil, "the stage type has a constructor", "none found")
+			continue
+		}
+		allowed = append(allowed, p.FuncKey(ct))
+		c.Check(p.MustPass(ct, fork, 0), "forked-at-creation:"+t, nil, ct,
+			"creating the stage object counts one grouping task on every path (Complete() un-counts one for every stage object, whatever Plan() returned)", "")
+		n := len(p.SitesDirect(ct, fork))
+		c.Check(n == 1, "forked-once:"+t, nil, ct, "exactly one fork per stage object", fmt.Sprintf("%d fork sites", n))
+	}
+	owner(c, "call of ForkGroupingTask", fork, allowed, len(allowed))
 }
